@@ -349,9 +349,62 @@ func VP_C08_subset() {
 }
 
 // VP_C07_mus: the four MUS extraction methods.
+// vpMUSSkeletons: unsatisfiable clause structures over 6-8 variables with
+// several conflicts, unit clauses and clauses outside every core.
+var vpMUSSkeletons = []struct {
+	n int
+	c [][]int
+}{
+	// 0: pigeon-hole 3/2 plus three clauses outside the core
+	{7, [][]int{{1, 2}, {3, 4}, {5, 6}, {-1, -3}, {-1, -5}, {-3, -5}, {-2, -4}, {-2, -6}, {-4, -6}, {7, 1}, {-7, 3}, {7, -6, 2}}},
+	// 1: two unit clauses, binary and ternary clauses (several conflicts before the refutation)
+	{7, [][]int{{-3, 6, 1}, {-5, 2}, {3}, {6, 3, 1}, {-1}, {2, 7}, {-6, -2}, {5, -3}, {-7, 5}, {7, -2}}},
+	// 2: no unit clause; an implication cycle closed by two ternary clauses
+	{6, [][]int{{1, 2, 3}, {-1, 4}, {-2, 4}, {-3, 4}, {-4, 5}, {-4, 6}, {-5, -6, 1}, {-5, -6, -1}, {2, -3}, {3, -2, 6}}},
+}
+
+// vpSkeletonCNF returns skeleton k with the polarity of every variable chosen
+// by the solver (this keeps the skeleton unsatisfiable and changes the order
+// in which the solver meets conflicts), and in addition the polarity of the
+// last maxSigns literal occurrences.
+func vpSkeletonCNF(k, maxSigns int) (int, [][]int) {
+	sk := vpMUSSkeletons[k]
+	pol := make([]int, sk.n+1)
+	for v := 1; v <= sk.n; v++ {
+		pol[v] = 1
+		if zzvp.Choose("vflip", 2) == 1 {
+			pol[v] = -1
+		}
+	}
+	total := 0
+	for _, c := range sk.c {
+		total += len(c)
+	}
+	F := make([][]int, len(sk.c))
+	cnt := 0
+	for j, c := range sk.c {
+		F[j] = make([]int, len(c))
+		for i, l := range c {
+			F[j][i] = l * pol[vpAbs(l)]
+			if cnt >= total-maxSigns && zzvp.Choose("flip", 2) == 1 {
+				F[j][i] = -F[j][i]
+			}
+			cnt++
+		}
+	}
+	// a declared variable that occurs in no clause (the solver still decides it)
+	return sk.n + zzvp.Choose("extra", 2), F
+}
+
 func VP_C07_mus() {
 	n := zzvp.Param("n", 2)
-	F := vpConcreteCNF(n, zzvp.Param("m", 3), zzvp.Param("k", 2), "")
+	var F [][]int
+	skel := zzvp.Param("skel", 0) == 1
+	if skel {
+		n, F = vpSkeletonCNF(zzvp.Choose("skeleton", zzvp.Param("nskel", len(vpMUSSkeletons))), zzvp.Param("maxsigns", 6))
+	} else {
+		F = vpConcreteCNF(n, zzvp.Param("m", 3), zzvp.Param("k", 2), "")
+	}
 	pb, err := ParseCNF(strings.NewReader(vpDimacs(n, F)))
 	if err != nil {
 		zzvp.Assert(false, "ParseCNF failed")
@@ -361,7 +414,11 @@ func VP_C07_mus() {
 	nbVars, nbClauses := pb.NbVars, pb.NbClauses
 	unitsBefore := append([]int(nil), pb.units...)
 	var mus *Problem
-	method := zzvp.Choose("method", 4)
+	nm := 4
+	if skel {
+		nm = 3 // MUSMaxSat needs the scope predicate of its known finding, too costly on skeletons
+	}
+	method := zzvp.Choose("method", nm)
 	if method == 3 && zzvp.Param("kf_maxsat", 1) == 1 {
 		// known finding C07-musmaxsat-several-cores: MUSMaxSat is only claimed on
 		// problems with at most one minimal unsatisfiable subset
@@ -392,6 +449,30 @@ func VP_C07_mus() {
 				zzvp.Assert(vpSatCNF(rest, n), "returned set is not minimal: a clause can be removed and the rest stays unsatisfiable")
 			}
 			zzvp.Assert(mus.NbClauses == len(mus.Clauses), "NbClauses differs from the number of clauses")
+		}
+	}
+	if zzvp.Param("second", 1) == 1 && method != 3 {
+		// the problem is left unchanged: a second extraction on the same value is as good as the first
+		var mus2 *Problem
+		var err2 error
+		switch zzvp.Choose("method2", 2) {
+		case 0:
+			mus2, err2 = pb.MUS()
+		default:
+			mus2, err2 = pb.MUSInsertion()
+		}
+		if vpSatCNF(F, n) {
+			zzvp.Assert(err2 != nil && mus2 == nil, "second extraction on a satisfiable problem: expected an error")
+		} else {
+			zzvp.Assert(err2 == nil && mus2 != nil, "second extraction on the same problem: expected a MUS")
+			if mus2 != nil {
+				zzvp.Assert(vpSubMultiset(mus2.Clauses, F), "second extraction: clauses are not a sub-multiset of the input")
+				zzvp.Assert(!vpSatCNF(mus2.Clauses, n), "second extraction on the same problem returned a satisfiable set")
+				for i := range mus2.Clauses {
+					rest := append(vpCopy2(mus2.Clauses[:i]), mus2.Clauses[i+1:]...)
+					zzvp.Assert(vpSatCNF(rest, n), "second extraction on the same problem returned a set that is not minimal")
+				}
+			}
 		}
 	}
 	zzvp.Assert(pb.NbVars == nbVars && pb.NbClauses == nbClauses, "the caller's problem header changed")
